@@ -801,7 +801,17 @@ GaloisFieldDict::gf_edf_shoup(const unsigned &n) const
         factors.insert(temp.begin(), temp.end());
     } else {
         auto b = gf_frobenius_monomial_base();
-        auto H = _gf_trace_map(r, n, b);
+        // Trace of r: r + r**p + ... + r**(p**(n - 1)) modulo *this.
+        // (_gf_trace_map applies the Frobenius map with the roles of the
+        // polynomial and the modulus exchanged, which made a split here a
+        // matter of luck: hundreds of recursion levels for two cubics.)
+        GaloisFieldDict t = r % (*this);
+        GaloisFieldDict H = t;
+        for (unsigned i = 1; i < n; ++i) {
+            t = t.gf_frobenius_map(*this, b);
+            H += t;
+        }
+        H %= (*this);
         auto h = gf_pow_mod(H, (mp_get_ui(modulo_) - 1) / 2);
         auto h1 = gf_gcd(h);
         auto h2 = gf_gcd(h - 1_z);
